@@ -81,8 +81,10 @@ class Run:
 
     # -- finish ------------------------------------------------------------------------------
     def finish(self):
+        reported_rules = {f.rule for f in self.findings}
         for rid, r in self.rules.items():
-            if r["judged"] < r["floor"]:
+            # a rule that already reports a violation may have stopped judging early: its floor is not applicable
+            if r["judged"] < r["floor"] and rid not in reported_rules:
                 raise AnalysisError("rule %s judged %d instance(s), below its floor of %d (%s): the anchors it "
                                     "looks for have changed shape" % (rid, r["judged"], r["floor"], r["desc"]))
         known = [k for k in load_known() if k.get("property") == self.prop]
